@@ -94,6 +94,7 @@ class Ctx:
         self.samples = {}           # digest -> case (keep smallest digests)
         self.first_samples = []
         self.failures = []          # [(case, message)]
+        self.fail_events = 0
         self.history = []           # earlier cases of this shard (bounded)
         self.keep_history = True
         self.extra = {}
@@ -141,6 +142,7 @@ class Ctx:
             self._first_fail_t = time.monotonic()
         if self.keep_history:
             case = dict(case, _history=list(self.history))
+        self.fail_events += 1
         self.failures.append((case, message))
         if len(self.failures) > 1 and self.failures[-2][1].split(":")[0] == \
                 message.split(":")[0]:
@@ -161,7 +163,7 @@ class Ctx:
         import hypothesis
         from hypothesis import HealthCheck, Phase, given, settings
         ctx = self
-        before = len(self.failures)
+        before = self.fail_events
 
         @hypothesis.seed(self.seed + seed_salt)
         @settings(max_examples=max_examples, database=None, deadline=None,
@@ -185,16 +187,16 @@ class Ctx:
         except Hang:
             raise
         except BaseException:       # noqa: B902 - inspected below
-            if len(self.failures) == before:
+            if self.fail_events == before:
                 raise               # not ours: a harness error
-        return len(self.failures) == before
+        return self.fail_events == before
 
     def machine(self, machine_cls, max_examples, steps, seed_salt=0):
         """Run a RuleBasedStateMachine; the machine reports through ctx."""
         import hypothesis
         from hypothesis import HealthCheck, Phase, settings
         from hypothesis.stateful import run_state_machine_as_test
-        before = len(self.failures)
+        before = self.fail_events
         st = settings(max_examples=max_examples, stateful_step_count=steps,
                       database=None, deadline=None, derandomize=False,
                       report_multiple_bugs=False,
@@ -208,9 +210,9 @@ class Ctx:
         except Hang:
             raise
         except BaseException:       # noqa: B902
-            if len(self.failures) == before:
+            if self.fail_events == before:
                 raise
-        return len(self.failures) == before
+        return self.fail_events == before
 
     def shrink_expired(self):
         return self._first_fail_t is not None and (
